@@ -143,6 +143,10 @@ def check_filter(ctx, F, cfg, type_path, acc_of, elem_ty, conv_ref, key, flag=No
     if local_flag is not None:
         ctx.oblige(key + "|flag-starts-false", local_flag[2] == ("lit", False), "the unknown-entry flag starts as %s, not false" % S.show(local_flag[2])[:40], cfg=cfg, where=where)
 
+    # the value returned when the list is exhausted (a `loop` whose only exit is `break Ok(out)` has no other result)
+    drain_outs = {p.result[2][0] for p in paths if any(t[0] == "break" for t in p.trace) and p.result is not None and p.result[0] == "ctor" and p.result[1] == S.OK and len(p.result[2]) == 1}
+    drain_out = next(iter(drain_outs)) if len(drain_outs) == 1 else None
+
     def flag_after(p):
         for ev in p.trace:
             if ev[0] == "iter":
@@ -173,7 +177,8 @@ def check_filter(ctx, F, cfg, type_path, acc_of, elem_ty, conv_ref, key, flag=No
             ctx.oblige(key + "|only-cbor-error|%d" % i, good, "the list decoder returns early with %s when %s: only a fault in next_element() itself may fail the request" % (S.show(r)[:80], [S.show_atom(a) for a in p.atoms][-2:]), cfg=cfg, where=where)
             continue
         good = r is not None and r[0] == "ctor" and r[1] == S.OK and len(r[2]) == 1
-        ctx.oblige(key + "|returns-output|%d" % i, good, "the result after the loop is %s, not Ok(<the list built>)" % S.show(r)[:80], cfg=cfg, where=where, nontrivial=False)
+        in_loop_only = r is not None and r[0] == "unk" and r[2] == "loop" and "break" not in [t[0] for t in p.trace]
+        ctx.oblige(key + "|returns-output|%d" % i, good or in_loop_only, "the result after the loop is %s, not Ok(<the list built>)" % S.show(r)[:80], cfg=cfg, where=where, nontrivial=False)
         if good:
             outs.add(normal(r[2][0]))
         if "abort" in [t[0] for t in p.trace]:
@@ -193,7 +198,7 @@ def check_filter(ctx, F, cfg, type_path, acc_of, elem_ty, conv_ref, key, flag=No
         ck = sym.lookup(p, C.term)
         foreign = [a for a in p.atoms if a[1] not in (N.term, body_opt, C.term)]
         ctx.oblige(key + "|decides-on-conversion|%d" % i, ck in (S.OK, S.ERR) and not foreign, "what happens to an entry depends on %s, not only on whether it is known" % [S.show_atom(a) for a in foreign][:2], cfg=cfg, where=where, nontrivial=False)
-        out0 = r[2][0] if good else None
+        out0 = r[2][0] if good else (drain_out if in_loop_only else None)
         if ck == S.OK:
             pushes = [e for e in muts if e.kind == "call" and (e.callee or "").endswith("::push")]
             g2 = len(muts) == 1 and len(pushes) == 1 and len(pushes[0].args) == 2 and pushes[0].args[1] == sym.proj(C.term, S.OK, 0)
